@@ -14,6 +14,7 @@ import (
 )
 
 type SolverCfg struct {
+	Thorough bool
 	WorkDir  string
 	TimeoutS int
 	Seed     int
@@ -181,6 +182,9 @@ func runSolver(ctx context.Context, backend, file string, timeoutS int, seed int
 
 // discharge decides one obligation: first z3-new alone with a short limit, then all back ends raced.
 func discharge(o *Obligation, cfg SolverCfg) {
+	if o.Status == "discharged" {
+		return // decided by the batch pass
+	}
 	if o.Goal == "true" && !o.Vacuity {
 		o.Status, o.Backend = "discharged", "trivial"
 		return
@@ -218,21 +222,30 @@ func discharge(o *Obligation, cfg SolverCfg) {
 		}
 		return false
 	}
-	short := 3
-	if cfg.TimeoutS < short {
-		short = cfg.TimeoutS
+	backs := []string{"z3-new", "cvc5"}
+	if cfg.Thorough {
+		backs = []string{"z3-new", "z3", "cvc5"}
 	}
-	a := runSolver(context.Background(), "z3-new", file, short, cfg.Seed)
-	if decide(a) {
-		o.TimeS = time.Since(t0).Seconds()
-		return
+	limit := cfg.TimeoutS
+	if o.Vacuity {
+		// only a proof of `false` matters here; do not wait for a model
+		backs = []string{"z3-new"}
+		if limit > 2 && !cfg.Thorough {
+			limit = 2
+		}
 	}
-	// race
+	// quantifier-free looking goals are almost always decided by z3 at once: try it alone first, briefly
+	if !o.Vacuity && !strings.Contains(o.Goal, "forall") && !strings.Contains(o.Goal, "exists") {
+		a := runSolver(context.Background(), "z3-new", file, 1, cfg.Seed)
+		if decide(a) {
+			o.TimeS = time.Since(t0).Seconds()
+			return
+		}
+	}
 	ctx, cancel := context.WithCancel(context.Background())
-	ch := make(chan solverAnswer, 3)
-	backs := []string{"z3-new", "z3", "cvc5"}
+	ch := make(chan solverAnswer, len(backs))
 	for _, b := range backs {
-		go func(b string) { ch <- runSolver(ctx, b, file, cfg.TimeoutS, cfg.Seed) }(b)
+		go func(b string) { ch <- runSolver(ctx, b, file, limit, cfg.Seed) }(b)
 	}
 	done := false
 	for range backs {
@@ -325,6 +338,30 @@ func sexprSplit(s string) []string {
 }
 
 func dischargeAll(obls []*Obligation, cfg SolverCfg) {
+	// identical queries (same assumptions and goal reached along different paths) are decided once
+	first := map[string]*Obligation{}
+	var dups [][2]*Obligation
+	var uniq []*Obligation
+	for _, o := range obls {
+		if (o.Goal == "true" && !o.Vacuity) || o.Status == "discharged" {
+			uniq = append(uniq, o)
+			continue
+		}
+		h := sha1.Sum([]byte(o.smt(cfg.Seed, false)))
+		k := string(h[:])
+		if f, ok := first[k]; ok {
+			dups = append(dups, [2]*Obligation{o, f})
+			continue
+		}
+		first[k] = o
+		uniq = append(uniq, o)
+	}
+	defer func() {
+		for _, d := range dups {
+			d[0].Status, d[0].Backend, d[0].Model, d[0].Answers, d[0].SMTFile = d[1].Status, d[1].Backend+"(same query)", d[1].Model, d[1].Answers, d[1].SMTFile
+		}
+	}()
+	obls = uniq
 	var wg sync.WaitGroup
 	sem := make(chan struct{}, cfg.Jobs)
 	for _, o := range obls {
